@@ -57,6 +57,10 @@ def run(ck):
                 continue
             nb += 1
             nm = f.names().get(l, "_%d" % l)
+            if ent["rejecting"]:
+                ck.ob("BITMAP", f.path, "bitmap-raw-value-tested:%s#%d" % (nm, nb), any(ent.get("raw", [])),
+                      "the undefined-bits test looks at the value as read from the input" if any(ent.get("raw", [])) else
+                      "the undefined-bits test looks at a copy that was already masked: it can never fail, undefined bits are silently dropped", "%s:%d" % (f.b["file"], ent["line"]))
             ck.ob("BITMAP", f.path, "bitmap:%s@L%d" % (nm, 0 if True else ent["line"]) + ("#%d" % nb),
                   len(ent["rejecting"]) >= 1,
                   "%d bit tests on an input-read integer; %d rejecting comparisons on its bits (undefined bits must be refused)"
